@@ -51,7 +51,7 @@ var canaries = map[string][]canary{}
 var propertyCanaries = map[string][]string{
 	"C01": {"BETA.noread", "FLAG.neginc", "STRIDE.index", "STRIDE.len", "STRIDE.start", "STRIDE.rowoffset", "STRIDE.extent", "FLAG.trans", "TWIN.generated", "ASM.units"},
 	"C02": {"OKFLOW.loopstatus", "FACTKIND.pair", "ARGS.order", "ARGS.lencheck", "ARGS.query", "LOOPIDX.unused", "OKFLOW.report", "STRIDE.vecinc", "WORKSIZE.min", "WORKSIZE.querylen"},
-	"C03": {"FLAG.uplomap", "STRIDE.veclda", "FACTKIND.pair", "LOOPIDX.origin", "ARGS.order", "ARGS.lencheck", "ARGS.query", "LOOPIDX.unused", "OKFLOW.report", "STRIDE.workld", "STRIDE.worknext", "WORKSIZE.min"},
+	"C03": {"GUARD.operand", "FLAG.uplomap", "STRIDE.veclda", "FACTKIND.pair", "LOOPIDX.origin", "ARGS.order", "ARGS.lencheck", "ARGS.query", "LOOPIDX.unused", "OKFLOW.report", "STRIDE.workld", "STRIDE.worknext", "WORKSIZE.min"},
 	"C04": {"STRIDE.contig", "TWIN.bounds", "NILRECV"},
 	"C05": {"OVERLAP.guard", "MODSET.mat", "OVERLAP.symmetric", "TWIN.shadow"},
 	"C06": {"FACTKIND.pair", "OKFLOW.use", "OKFLOW.cond", "OKFLOW.report", "FACT.normorder", "FACT.state", "FACT.condunit", "NILRECV"},
@@ -87,6 +87,7 @@ func init() {
 		{"FLAG.uplomap", "lapack/gonum/dsyev.go", "kind = lapack.UpperTri", "kind = lapack.LowerTri", func() *core.Result { return flagx.RunUploMap(def, core.Pkgs("./lapack/gonum")) }},
 		{"FLAG.neginc", "blas/gonum/level2float64.go", "Implementation{}.Dscal(lenY, beta, y, -incY)", "Implementation{}.Dscal(lenY, beta, y, incY)", func() *core.Result { return flagx.RunNegInc(def, core.Pkgs("./blas/gonum")) }},
 		{"BETA.noread", "blas/gonum/level3float64.go", "\tif beta == 0 {\n\t\tfor i := 0; i < m; i++ {\n\t\t\tctmp := c[i*ldc : i*ldc+n]\n\t\t\tfor j := range ctmp {\n\t\t\t\tctmp[j] = 0", "\tif beta == 0 {\n\t\tfor i := 0; i < m; i++ {\n\t\t\tctmp := c[i*ldc : i*ldc+n]\n\t\t\tfor j := range ctmp {\n\t\t\t\tctmp[j] *= beta", func() *core.Result { return flagx.RunBetaZero(def, core.Pkgs("./blas/gonum")) }},
+		{"GUARD.operand", "lapack/gonum/dbdsqr.go", "if ncc > 0 {\n\t\t\t\timpl.Dlasr(blas.Left, lapack.Variable, lapack.Forward, n, ncc, work, work[n-1:], c, ldc)", "if nru > 0 {\n\t\t\t\timpl.Dlasr(blas.Left, lapack.Variable, lapack.Forward, n, ncc, work, work[n-1:], c, ldc)", func() *core.Result { return flagx.RunGuardOperand(def, core.Pkgs("./lapack/gonum")) }},
 		{"WORKSIZE.min", "lapack/gonum/dgels.go", "wsize := max(1, mn+max(mn, nrhs)*nb)", "wsize := max(1, mn+mn*nb)", wsz},
 		{"WORKSIZE.querylen", "lapack/gonum/dormqr.go", "case lwork < max(1, nw) && lwork != -1:\n\t\tpanic(badLWork)", "case lwork < max(1, nw) && lwork != -1:\n\t\tpanic(badLWork)\n\tcase len(tau) != k:\n\t\tpanic(badLenTau)", wsz},
 		{"WORKSIZE.min", "lapack/gonum/dsyev.go", "lworkopt := max(1, (nb+2)*n)", "lworkopt := max(1, (nb+1)*n)", wsz},
